@@ -37,6 +37,10 @@ def main():
         else:
             i += 1
     st = sh("git -C %s status --porcelain" % REPO).stdout.strip()
+    if st and REPO != "/repo":
+        # a scratch tree left dirty by an interrupted run: reset it
+        sh("git -C %s checkout -- . && git -C %s clean -fdq" % (REPO, REPO))
+        st = sh("git -C %s status --porcelain" % REPO).stdout.strip()
     if st:
         print("REFUSING: /repo is not clean:\n" + st)
         sys.exit(2)
